@@ -929,6 +929,16 @@ func execReq(in In) vh.Result {
 	if !bytes.Equal(j1, j2) {
 		return direct("request-json-not-idempotent", fmt.Sprintf("first  %s\nsecond %s", j1, j2))
 	}
+	// the parsed-back sort order must be the same ordering: compare it attribute by attribute
+	// (field, direction, type, mode, missing), which does not depend on the corpus at hand
+	{
+		var r2 bleve.SearchRequest
+		if err := json.Unmarshal(j1, &r2); err == nil {
+			if a, b := sortDump(req.Sort), sortDump(r2.Sort); a != b {
+				return direct("request-sort-differs", fmt.Sprintf("request %s: sort order before %s, after the JSON round trip %s", trunc(string(j1), 600), a, b))
+			}
+		}
+	}
 	for _, eng := range engines {
 		idx, err := getIndex(in.Corpus, eng)
 		if err != nil {
@@ -952,4 +962,28 @@ func execReq(in In) vh.Result {
 		}
 	}
 	return vh.Result{Skip: true, Hist: []string{"req"}}
+}
+
+
+// sortDump renders a sort order attribute by attribute; a nil order is the default (score descending).
+func sortDump(so search.SortOrder) string {
+	if len(so) == 0 {
+		return "[score desc]"
+	}
+	var parts []string
+	for _, x := range so {
+		switch t := x.(type) {
+		case *search.SortField:
+			parts = append(parts, fmt.Sprintf("field(%s desc=%v type=%d mode=%d missing=%d)", t.Field, t.Desc, t.Type, t.Mode, t.Missing))
+		case *search.SortDocID:
+			parts = append(parts, fmt.Sprintf("id desc=%v", t.Desc))
+		case *search.SortScore:
+			parts = append(parts, fmt.Sprintf("score desc=%v", t.Desc))
+		case *search.SortGeoDistance:
+			parts = append(parts, fmt.Sprintf("geo(%s desc=%v unit=%s %v,%v)", t.Field, t.Desc, t.Unit, t.Lon, t.Lat))
+		default:
+			parts = append(parts, fmt.Sprintf("%T", x))
+		}
+	}
+	return "[" + strings.Join(parts, "; ") + "]"
 }
